@@ -6,7 +6,7 @@ result as "final_run" in seeded/<id>/meta.json. Prints one line per change."""
 import json, os, re, subprocess, sys
 from concurrent.futures import ThreadPoolExecutor
 ROOT = os.path.dirname(os.path.dirname(os.path.abspath(__file__)))
-EXTRA = {"C04-w3-m2": ["C03"], "C06-w3-m1": ["C18"], "C13-w3-m2": ["C17"], "C06-w4-m1": ["C05"], "C06-w4-m2": ["C13"], "C13-w4-m2": ["C17"], "C03-w4-m2": ["C12"]}
+EXTRA = {"C04-w3-m2": ["C03"], "C06-w3-m1": ["C18"], "C13-w3-m2": ["C17"], "C06-w4-m1": ["C05"], "C06-w4-m2": ["C13"], "C13-w4-m2": ["C17"], "C03-w4-m2": ["C12"], "C04-w5-m2": ["C13"], "C05-w5-m1": ["C06"], "C05-w5-m2": ["C06"], "C13-w5-m2": ["C03"]}
 def props_for(sid, meta):
     fr = meta.get("final_run") or {}
     cmd = fr.get("cmd", "")
@@ -17,6 +17,9 @@ def props_for(sid, meta):
 def run(sid):
     d = os.path.join(ROOT, "seeded", sid)
     meta = json.load(open(os.path.join(d, "meta.json")))
+    if meta.get("superseded"):
+        print("%-12s superseded (no longer breaks the property at HEAD; see its meta.json)" % sid, flush=True)
+        return
     props = props_for(sid, meta)
     out = subprocess.run([os.path.join(ROOT, "tools/seedtest_wt.sh"), os.path.join(d, "patch.diff")] + props,
                          capture_output=True, text=True).stdout
